@@ -62,7 +62,16 @@ class Log:
         self.repeat = False
 
 
-def make_iter(n, log):
+FALSY_ELEMS = [None, 0, '', (), None]
+
+
+def elem(i, falsy):
+    """element number i (1-based); the falsy suppliers produce None, 0, ''
+    and () - values that must not be mistaken for the end of the sequence"""
+    return FALSY_ELEMS[i % 5] if falsy else i
+
+
+def make_iter(n, log, falsy=False):
     def gen():
         i = 0
         while n == INF or i < n:
@@ -70,13 +79,13 @@ def make_iter(n, log):
             if log.pulls > BUDGET:
                 raise PullBudget()
             i += 1
-            yield i
+            yield elem(i, falsy)
     return gen()
 
 
 class CountingIter:
-    def __init__(self, n, log):
-        self.n, self.log, self.i = n, log, 0
+    def __init__(self, n, log, falsy=False):
+        self.n, self.log, self.i, self.falsy = n, log, 0, falsy
 
     def __iter__(self):
         return self
@@ -88,12 +97,12 @@ class CountingIter:
         if self.log.pulls > BUDGET:
             raise PullBudget()
         self.i += 1
-        return self.i
+        return elem(self.i, self.falsy)
 
 
 class LazySeq:
-    def __init__(self, n, log):
-        self.n, self.log = n, log
+    def __init__(self, n, log, falsy=False):
+        self.n, self.log, self.falsy = n, log, falsy
 
     def __getitem__(self, i):
         if i < 0:
@@ -104,7 +113,7 @@ class LazySeq:
             raise PullBudget()
         if i > self.log.maxindex:
             self.log.maxindex = i
-        return i + 1
+        return elem(i + 1, self.falsy)
 
     def __len__(self):
         self.log.len_calls += 1
@@ -114,11 +123,13 @@ class LazySeq:
 
 
 def supplier(kind, n, log):
+    falsy = kind.endswith('0')
+    kind = kind.rstrip('0')
     if kind == 'gen':
-        return make_iter(n, log)
+        return make_iter(n, log, falsy)
     if kind == 'iter':
-        return CountingIter(n, log)
-    return LazySeq(n, log)
+        return CountingIter(n, log, falsy)
+    return LazySeq(n, log, falsy)
 
 
 STEP = ('{<dtml-var sequence-step-start>,<dtml-var sequence-step-end>,'
@@ -185,6 +196,13 @@ def template(body):
 def cases(tier):
     g = GRIDS[tier]
     for L in g['L']:
+        for sup in ('iter0', 'gen0', 'lazy0'):
+            # suppliers of None / 0 / '' / () elements
+            if L != INF:
+                yield {'body': 'unbatched', 'L': L, 'sup': sup}
+            for size in g['size']:
+                yield {'body': 'item', 'L': L, 'sup': sup, 'size': size,
+                       'orphan': 0, 'se': [g['se'][0], g['se'][-1]]}
         for sup in ('iter', 'gen', 'lazy'):
             if L != INF:
                 yield {'body': 'unbatched', 'L': L, 'sup': sup}
@@ -225,8 +243,8 @@ def one(res, case, start, end, overlap):
         # C11 owns window errors; here only the pulls matter
         res.count('exceptions:%s' % type(e).__name__)
         return False
-    pulled = log.pulls if sup != 'lazy' else log.maxindex + 1
-    if sup == 'lazy' and log.len_calls:
+    pulled = log.pulls if not sup.startswith('lazy') else log.maxindex + 1
+    if sup.startswith('lazy') and log.len_calls:
         pulled = L          # asking for the length costs everything
     m = STEP_RE.search(out)
     if m is None:
@@ -259,8 +277,10 @@ def run(case):
         L = case['L']
         seq = supplier(case['sup'], L, log)
         out = template('unbatched')(seq=seq)
-        exp = ''.join('%d,' % i for i in range(1, L + 1))
-        pulled = log.pulls if case['sup'] != 'lazy' else log.maxindex + 1
+        falsy = case['sup'].endswith('0')
+        exp = ''.join('%s,' % (elem(i, falsy),) for i in range(1, L + 1))
+        pulled = log.pulls if not case['sup'].startswith('lazy') \
+            else log.maxindex + 1
         if out != exp or pulled != L:
             res.violate('unbatched', 'unbatched:%s' % case['sup'],
                         {'output': out, 'pulled': pulled, 'L': L})
